@@ -2,7 +2,7 @@
 """Runs the checks against every seeded change under /verif/seeded: applies patch.diff to /repo's working tree
 (git apply), runs the quick tier of every claimed check, reverts (git checkout -- .), and records which checks fire.
 
-usage: eval_seeded.py [dir-substring ...]  [--tier quick|thorough] [--only-target]
+usage: eval_seeded.py [dir-substring ...]  [--tier quick|thorough] [--only-target] [--repo=<scratch worktree> [--record]] [--shard=i/n]
 Results: seeded/<id>/[second/]result.json and the table seeded/RESULTS.md.  /repo must be clean; it is left clean."""
 import concurrent.futures
 import json
@@ -47,6 +47,10 @@ def main():
         for sub in sorted(os.listdir(p)) if os.path.isdir(p) else []:
             if os.path.isfile(os.path.join(p, sub, "patch.diff")):
                 dirs.append(os.path.join(p, sub))
+    shard = [a for a in sys.argv if a.startswith("--shard=")]
+    if shard:
+        i, n = map(int, shard[0].split("=")[1].split("/"))
+        dirs = [d for k, d in enumerate(dirs) if k % n == i]
     for d in dirs:
         rel = os.path.relpath(d, os.path.join(VERIF, "seeded"))
         if args and not any(a in rel for a in args):
@@ -74,7 +78,10 @@ def main():
         fired = sorted(p for p, v in res.items() if v[1] == "fired")
         result = {"target": target, "tier": tier, "target_fired": res[target][1] == "fired", "fired": fired,
                   "reports": {p: v[2] for p, v in res.items() if v[1] != "silent"}, "status": {p: v[1] for p, v in res.items()}}
-        if "--only-target" not in sys.argv and REPO == "/repo":
+        if "--only-target" not in sys.argv and (REPO == "/repo" or "--record" in sys.argv):
+            # --record with --repo=<scratch git worktree of /repo's HEAD>: same commit, same checks, own fact cache
+            result["repo"] = REPO
+            result["repo_head"] = sh("git -C %s rev-parse --short HEAD" % REPO).stdout.strip()
             json.dump(result, open(os.path.join(d, "result.json"), "w"), indent=1)
         print("%-14s target %s: %-6s  all fired: %s" % (rel, target, res[target][1], " ".join(fired)))
         for p in fired:
